@@ -1,0 +1,14 @@
+//go:build verif
+
+package constants
+
+// Machine-checked contracts for the gowp verifier (/verif). Comment-only; compiled only under the
+// build tag "verif"; declares nothing.
+
+// compmem(v): the size a composite value (set, sorted set) reports through CompositeType.GetMem. Assumed for every
+// implementation: GetMem only reads.
+//@ ufun compmem(v any) int64
+
+//@ func (CompositeType).GetMem trusted props C19
+//@   ensures result == compmem(this) && result >= 0
+//@   modifies nothing
